@@ -985,9 +985,35 @@ class Interp:
         if isinstance(base, str):
             return ('strmethod', base, a)
         if isinstance(base, Vec):
-            if a == 'size': return len(base)
-            if a == 'shape': return (len(base),)
+            two_d = bool(base) and all(isinstance(r_, Vec) for r_ in base)
+            if a == 'size': return sum(len(r_) for r_ in base) if two_d else len(base)
+            if a == 'shape': return (len(base), len(base[0])) if two_d else (len(base),)
+            if a in ('flatten', 'ravel') and two_d: return (lambda *a_, **k_: Vec([v_ for r_ in base for v_ in r_]))
             if a in ('flatten', 'ravel', 'copy', 'tolist'): return (lambda *a_, **k_: Vec(base))
+            if a == 'T':
+                # transpose of a two-dimensional array (rows are Vecs); a one-dimensional array is its own transpose
+                return Vec([Vec([base[i_][j_] for i_ in range(len(base))]) for j_ in range(len(base[0]))]) if two_d else base
+            if a == 'reshape':
+                def reshape(*shape, **k_):
+                    shape = tuple(shape[0]) if len(shape) == 1 and isinstance(shape[0], (tuple, list)) else tuple(shape)
+                    flat = [v_ for r_ in base for v_ in r_] if two_d else list(base)
+                    dims = [concrete(to_node(n_)) if not isinstance(n_, int) else n_ for n_ in shape]
+                    if any(n_ is None for n_ in dims):
+                        raise AnalysisError(f'{fr.mod.where(e)}: reshape to a symbolic shape')
+                    dims = [int(n_) for n_ in dims]
+                    if -1 in dims:
+                        known_ = 1
+                        for n_ in dims:
+                            if n_ != -1: known_ *= n_
+                        dims[dims.index(-1)] = len(flat) // known_ if known_ else 0
+                    tot_ = 1
+                    for n_ in dims: tot_ *= n_
+                    if tot_ != len(flat):
+                        raise RaiseSignal(ast.Raise(exc=ast.Name(id='ValueError', ctx=ast.Load()), cause=None), f'ValueError(cannot reshape array of size {len(flat)} into shape {tuple(dims)})')
+                    if len(dims) == 1: return Vec(flat)
+                    if len(dims) == 2: return Vec([Vec(flat[i_ * dims[1]:(i_ + 1) * dims[1]]) for i_ in range(dims[0])])
+                    raise AnalysisError(f'{fr.mod.where(e)}: reshape to {len(dims)} dimensions is not modelled')
+                return reshape
             if a in ('argmin', 'argmax', 'min', 'max'):
                 def pick(*a_, **k_):
                     cs = [concrete(to_node(v)) for v in base]
